@@ -142,7 +142,7 @@ def run(ctx):
     rnd = ctx.rnd
     ctx.rule = ("per-type rule grammars: Integer (default 32 bit; rules with boundary probes; length-derived ranges swept exhaustively for all length declarations "
                 "over 0..3 (quick) / 0..5 (thorough) x all integers of up to 4 / 6 characters), Decimal (4 separator conventions, generated and mutated numbers), "
-                "Choice / Constant (quoted and bare values, case flips), DateTime (layouts over DD MM YYYY YY hh mm ss with separators; every month end, leap "
+                "Choice / Constant (quoted and bare values, case flips), DateTime (fixed layouts over DD MM YYYY YY hh mm ss with separators and layouts generated from the placeholder / literal grammar incl. the adjacencies MMmm and YYYYYY; every month end, leap "
                 "years, single character mutations), Pattern and RegEx (generated globs / regexes with matching and mutated cells), Text; formats delimited, "
                 "fixed, excel, ods; distinct = distinct (declaration, cell); non-trivial = cell decided by the type (guards pass)")
     b = Batch(ctx)
@@ -250,6 +250,21 @@ def run(ctx):
         for mo in range(1, 13):
             for d in (1, 28, 29, 30, 31):
                 dates.append((y, mo, d))
+    # layouts from the grammar of C02_layout_translation: placeholders and literal characters (no placeholder letters, no blanks; `%`, digits
+    # and other letters included) in any order; and the adjacencies the theorem excludes (`MM` before `mm`, two year placeholders)
+    placeholders = ["DD", "MM", "YYYY", "YY", "hh", "mm", "ss"]
+    literal_pool = list(".-/:T,_%#dy0HS") + ["%%", "d%"]
+    for _ in range(12 if not thorough else 120):
+        toks = []
+        for _k in range(rnd.randint(2, 6)):
+            t = rnd.choice(placeholders)
+            if toks and ((toks[-1] in ("YYYY", "YY") and t in ("YYYY", "YY")) or (toks[-1] == "MM" and t == "mm")):
+                toks.append(rnd.choice(literal_pool))
+            toks.append(t)
+            if rnd.random() < 0.6:
+                toks.append(rnd.choice(literal_pool))
+        layouts.append("".join(toks))
+    layouts += ["MMmm", "YYYYYY", "YYYYYYYY", "YYYYMMmm", "DDMMYYYYhhmmss", "hhmmssDDMMYYYY", "mmMM", "ssmmhh%DD%MM%YYYY"]
     for layout in layouts:
         cells, expect = [], []
         sample = dates if thorough else rnd.sample(dates, 60) + [(2024, 2, 29), (2023, 2, 29), (1900, 2, 29), (2000, 2, 29), (2024, 4, 31), (2024, 12, 31)]
